@@ -11,7 +11,7 @@ def _safe(name):
 
 
 def finish(pid, tier, seed, mod, results, known, wall):
-    ev_dir = os.path.join(VERIF, 'evidence')
+    ev_dir = os.environ.get('PYVC_EVIDENCE_DIR') or os.path.join(VERIF, 'evidence')
     rp_dir = os.path.join(ev_dir, 'replays', pid)
     os.makedirs(rp_dir, exist_ok=True)
     lines = []
